@@ -117,6 +117,17 @@ func (m *Machine) checkListings(s *Snap, ord []*JobRec) {
 	// (3) every accepted job is found by id
 	for _, j := range ord {
 		if j.MaybePurged {
+			// Nothing is promised about whether the job is still there (any save may have purged it) - but as
+			// long as it is, it is reported both ways: by id and in the list. The list is read before and after
+			// the lookup; only if both readings agree is the lookup compared with them.
+			sA := m.w.Snapshot()
+			found := false
+			_ = m.w.PR.ReadJob(j.ID, func(pj *prunner.PipelineJob) { found = pj.ID == j.ID })
+			sB := m.w.Snapshot()
+			inA, inB := sA.Jobs[j.ID] != nil, sB.Jobs[j.ID] != nil
+			if inA == inB && inA != found {
+				m.fail("C15", "job #%d (its pipeline was removed from the definitions for a while) is found by id: %v, in the job list: %v", j.AcceptIdx, found, inA)
+			}
 			continue
 		}
 		if m.cfg.Retention && s.Jobs[j.ID] == nil && (m.mon.finished[j.ID] > 0 || j.CancelAcked || j.Replaced || j.Bad != "" || j.ShutdownSeq != 0) {
